@@ -7,12 +7,21 @@ F = ["rcgen::KeyPair::public_key_der", "rcgen::KeyPair::public_key_raw", "rcgen:
      "rcgen::key_pair::serialize_public_key_der", "<rcgen::KeyPair as PublicKeyData>::der_bytes"]
 
 
+def run_mir(tier, seed):
+    import sys, pathlib
+    sys.path.insert(0, str(pathlib.Path(__file__).resolve().parent.parent.parent / "mirsmt"))
+    import mir_check, dn
+    # ext_presence: nothing written by the TBS closure is computed from the issuer key's stored document (AKI source, taint over all
+    # writer arguments) - covers the code compiled only with the crypto feature, which the Kani queries cannot reach
+    return mir_check.run_obligations([dn.ob_ext_presence, dn.ob_sign_arms])
+
+
 def spec(tier, seed):
     kinds = ["public_key_der / public_key_raw", "self-signed CA certificate (AKI, SKI, basic constraints)", "CSR with an extension request", "CRL"]
     qs = [Query(name=f"c19_nonint_{k}", body=f"    c19::noninterference({k});", unwind=400, family="noninterference", stubs=S1, functions=F, timeout=1500,
                 shape=f"{kinds[k]}: two key pairs equal in everything public and differing in a 4-byte symbolic stored key document give byte-identical output")
           for k in range(4)]
-    return {"queries": qs, "exhaustive": False,
+    return {"queries": qs, "mir": run_mir, "exhaustive": False,
             "bounds": "the stored key document is 4 symbolic bytes per key (hook keypair_remote_with_secret: a Remote-kind key that carries a document; "
                       "unreachable through the public API, used because only that kind is executable without FFI); one minimal shape per artefact kind",
             "outside": "every Debug/Display rendering and error text (core::fmt is not tractable: a mutation deriving Debug for KeyPair is NOT detected), "
